@@ -156,8 +156,12 @@ func (k Keeper) LockVoterPower(
 	voter sdk.AccAddress,
 	signals []types.Signal,
 ) error {
-	sumPower := types.SumPower(signals)
-	if err := k.restakeKeeper.SetLockedPower(ctx, voter, types.ModuleName, math.NewInt(sumPower)); err != nil {
+	// sum with arbitrary precision: an int64 sum of signal powers can wrap around
+	sumPower := math.ZeroInt()
+	for _, signal := range signals {
+		sumPower = sumPower.Add(math.NewInt(signal.Power))
+	}
+	if err := k.restakeKeeper.SetLockedPower(ctx, voter, types.ModuleName, sumPower); err != nil {
 		return err
 	}
 
